@@ -119,6 +119,7 @@ def escape_case(L):
         parts = []
         for _ in range(L): parts.append(RES[idx % n]); idx //= n
         s = b"x" + b"".join(parts) + b"y"
+        if re.search(rb"(?m)^(-+|=+)$", s): return (None, [], dict(skipped=1))      # the body would contain a Setext underline: not a body any more
         src = b"# H\n\n" + s + b"\n"
         opml = mmd.convert(src, mmd.EXT_DEFAULT, 9)
         v = []
